@@ -26,6 +26,7 @@ RULE = (
 ASSUMPTIONS = base.ASSUMPTIONS
 
 VALS = E.SINGLE_LINE_VALUES
+INLINE_DOCS = ["{ a = 1; }\n", "{ pkgs }:\n{ a = 1; }\n", "{ }\n", "{ a = { b = 1; }; }\n", "let\n  v = 1;\nin\n{ a = v; }\n", "f { a = 1; }\n"]
 
 
 def _apply_seq(text, seq, same_object):
@@ -101,7 +102,7 @@ def laws(text, r: random.Random, flags):
             continue
         if "replace" in notes:
             continue
-        v = r.choice(VALS)
+        v = r.choice(E.VALUES)  # multi-line values too: adding and removing them must not leave the set expanded
         out.append(("b-set-rm-restores", f"set {path} {v}; rm {path}", [], [("set", path, v), ("rm", path, None)], "equal-original"))
     # (c) rm then set old value restores tree
     for _ in range(2):
@@ -208,6 +209,8 @@ def run_shard(sh):
         sh.now(n)
         r = random.Random(n)
         doc, text = D.make(n, **doc_kw)
+        if r.random() < 0.1:
+            text = r.choice(INLINE_DOCS)  # sets written on one line
         nima.reset_state()
         try:
             if nima.rt(text) != text:
@@ -221,6 +224,10 @@ def run_shard(sh):
             return
         for law in laws(text, r, flags):
             same_object = r.random() < 0.5
+            if law[0] == "b-set-rm-restores" and any("\n" in (x[2] or "") for x in law[3]):
+                # a multi-line value expands an inline set; once that text is re-parsed the set *is* an expanded set and
+                # stays one, so the byte law is stated for one parsed object only
+                same_object = True
             scoped = "@" in law[1]
             sig_extra = f"{'scoped' if scoped else 'plain'}|{base.shape_sig(view) if scoped else '*'}"
             if any(b == law[0] or b == f"{law[0]}|{'scoped' if scoped else 'plain'}" for b in blocked_laws):
